@@ -37,6 +37,8 @@ def c15_cases(tier, rng):
             ro = dict(rng.choice(list(subsets(rcpt_fields))))
             if "orcpt" in ro:
                 ro["orcpttype"] = rng.choice([b"RFC822", b"UTF-8"])
+            if "rrvs" in ro:
+                ro["rrvszone"] = rng.choice([0, 3600, -28800, 20700])
             c.rcpt(b"r@x.org", ro or None)
             benign.append(c.case())
     # a second EHLO (after Reset) with a different extension set: parameters must follow the latest one
@@ -74,6 +76,9 @@ def c15_cases(tier, rng):
             c = CC(exts=exts); c.mail(b"s@x"); c.rcpt(h); hostile.append(c.case())
             c = CC(exts=exts); c.mail(b"s@x"); c.rcpt(b"r@x", dict(orcpttype=b"RFC822", orcpt=h)); hostile.append(c.case())
             c = CC(exts=exts); c.mail(b"s@x"); c.rcpt(b"r@x", dict(orcpttype=b"UTF-8", orcpt=h, notify=[h])); hostile.append(c.case())
+            c = CC(exts=exts); c.mail(b"s@x"); c.rcpt(b"r@x", dict(orcpttype=b"UTF-8", orcpt=h)); hostile.append(c.case())
+            c = CC(exts=exts); c.mail(b"s@x"); c.rcpt(b"r@x", dict(orcpttype=b"UTF-8", orcpt=b"o@x" + h + b"y", notify=[b"FAILURE"])); hostile.append(c.case())
+            c = CC(exts=exts); c.mail(b"s@x"); c.rcpt(b"r@x", dict(notify=[b"SUCCESS", h])); hostile.append(c.case())
             c = CC(exts=exts); c.mail(b"s@x", dict(ret=h)); hostile.append(c.case())
     return benign, hostile
 
@@ -126,9 +131,10 @@ def c18_cases(tier, rng):
     verdicts = [b"250 2.0.0 delivered\r\n", b"550 5.1.1 no such user\r\n", b"452-4.2.2 over\r\n452 4.2.2 quota\r\n"]
     for ntx in (1, 2, 3):
         for _ in range(150 if tier == "quick" else 1500):
-            c = CC(lmtp=True, exts=[b"8BITMIME"])
+            exts = rng.choice([[b"8BITMIME"], [], [b"PIPELINING", b"SIZE 100"], [b"8BITMIME", b"DSN"]])
+            c = CC(lmtp=True, exts=exts)
             for t in range(ntx):
-                c.mail(b"s%d@x" % t)
+                c.mail(b"s%d@x" % t, rng.choice([None, None, dict(size=3)]))
                 acc = 0
                 for k in range(rng.randrange(1, 4)):
                     ok = rng.random() < 0.75
@@ -139,7 +145,7 @@ def c18_cases(tier, rng):
                 final = b"".join(rng.choice(verdicts) for _ in range(acc))
                 c.data([b"msg %d\r\n" % t], final, lmtp_cb=rng.random() < 0.6, closes=1)
                 if rng.random() < 0.2:
-                    c.reply(OK); c.call("reset"); c.reply(ehlo([b"8BITMIME"]))
+                    c.reply(OK); c.call("reset"); c.reply(ehlo(exts))
             c.reply(b"221 2.0.0 bye\r\n"); c.call("quit")
             cases.append(c.case())
     return cases
